@@ -126,7 +126,7 @@ func runLife(c *Ctx, sc lifeSc, seedLabel ...interface{}) (out lifeOutcome) {
 	conn := s.Conn
 
 	// ---- handlers ----
-	var connIdx int64 // number of successful connects so far (harness view)
+	var connIdx int64  // number of successful connects so far (harness view)
 	var sawError int32 // a server sent an ERROR line before hanging up
 	sample := func(kind string) {
 		v := "false"
